@@ -255,8 +255,20 @@ def _m3():
     ]
 
 
+def _m4():
+    """EMPTY lists as values (`Metadata = []`, an empty input list) that are not the first argument of their command: nothing to resolve in
+    them, but they are arguments with a line of their own"""
+    q = lambda s: ("q", s)
+    b = lambda s: ("bare", s)
+    return [
+        ("A", "EEMSRead", [("InFileName", q("input.csv")), ("InFieldName", b("A")), ("Metadata", ("list", []))]),
+        ("AFz", "CvtToFuzzy", [("InFieldName", b("A")), ("Metadata", ("list", [])), ("TrueThreshold", ("int", "10")), ("FalseThreshold", ("int", "0"))]),
+        ("Out", "EEMSWrite", [("OutFileName", q("out.csv")), ("Metadata", ("list", [])), ("OutFieldNames", ("list", [b("A"), b("AFz")]))]),
+    ]
+
+
 MODELS = [_m1(), _m2()]
-FAULT_MODELS = MODELS + [_m3()]  # (C12 / C15 use MODELS; the twin-line model only serves the fault family of this check)
+FAULT_MODELS = MODELS + [_m3(), _m4()]  # (C12 / C15 use MODELS; the twin-line model only serves the fault family of this check)
 
 
 def _layout(its, which):
@@ -535,6 +547,10 @@ def _run_fault(case):
             # the offending token is the parameter NAME: its line (not the line of a value that follows on a later line)
             a, b = _arg_span(its, starts, ci, ai)
             ok_lines = {a} | ({cmd_first} if level == "either-name" else set())
+            args_ = fm[ci][2]
+            if ai < len(args_) and args_[ai][1][0] in ("list", "tuple"):
+                # (a LIST argument is known to the program by the line on which its list starts, as for argument_lines above: within the span)
+                ok_lines |= set(range(a, b + 1))
         else:
             ok_lines = set(range(cmd_first, (cmd_last or cmd_first) + 1)) | {None}
         if via == "api" and classes and cls not in classes:
